@@ -74,6 +74,10 @@ def build(spec):
         ds = ds.intersperse(ds)
     elif wrap == 'prefetch_pool':
         ds = ds.prefetch(2, 2)
+    elif wrap == 'prefetch_alias1':
+        # one worker of the thread pool (the documented alias spelling selects
+        # the pool path, which freezes the reshuffle per iteration)
+        ds = ds.prefetch(1, 1 + spec['seed'] % 2, backend='thread')
     elif wrap == 'catch':
         ds = ds.catch()
     return ds
@@ -116,7 +120,7 @@ def gen_spec(rng):
         # consumers that freeze the reshuffle once per iteration: several
         # iterators in flight are independent of each other there; and a copy()
         # of the dataset iterated next to the original
-        spec['wrap'] = rng.choice(['prefetch_pool', 'catch', 'copy_pair'])
+        spec['wrap'] = rng.choice(['prefetch_pool', 'prefetch_alias1', 'catch', 'copy_pair'])
     return spec
 
 
@@ -191,7 +195,7 @@ def _ids_of(x, spec):
 
 
 def run(case):
-    if case['spec'].get('wrap') == 'prefetch_pool':
+    if case['spec'].get('wrap') in ('prefetch_pool', 'prefetch_alias1'):
         from .. import sim as S
         from lazy_dataset import parallel_utils as ldp
         from lazy_dataset import core as ldc_
@@ -289,7 +293,7 @@ def _run(case, finish):
                 end_i = finished_at[i] if finished_at[i] is not None else len(case['ops'])
                 if started_at[i] < started_at[j] < end_i:
                     overlap = True
-        if overlap and spec.get('wrap') in ('prefetch_pool', 'catch', 'copy_pair'):
+        if overlap and spec.get('wrap') in ('prefetch_pool', 'prefetch_alias1', 'catch', 'copy_pair'):
             probes['iterators_over_freezing_consumer'] = 1
         if overlap:
             probes['second_iterator_started_while_first_in_flight'] = 1
@@ -301,7 +305,7 @@ def _run(case, finish):
         wrap = spec.get('wrap')
         internal_overlap = wrap in ('zip_self', 'intersperse_self') and spec['n'] > 0
         # copy_pair with two iterators: the two run over different objects
-        freezing = wrap in ('prefetch_pool', 'catch') or (wrap == 'copy_pair' and nit == 2)
+        freezing = wrap in ('prefetch_pool', 'prefetch_alias1', 'catch') or (wrap == 'copy_pair' and nit == 2)
         exp, m = expected_counter(spec)
         kind = spec['kind']
 
